@@ -260,7 +260,8 @@ class Ctx:
         if new:
             os.makedirs(os.path.join(VERIF, "replays"), exist_ok=True)
             seen = set()
-            for m in new[:20]:
+            cap = int(os.environ.get("VERIF_MAXVIOL", "20"))
+            for m in new[:cap]:
                 pid = m.get("property", self.prop)
                 h = hashlib.sha1((pid + m.get("sig", "")).encode()).hexdigest()[:12]
                 path = os.path.join(VERIF, "replays", "%s-%s.json" % (pid, h))
@@ -271,8 +272,8 @@ class Ctx:
                     seen.add((pid, h))
                     log("VIOLATION property=%s replay=%s" % (pid, path))
                     log("  want=%s got=%s text=%s cfg=%s %s" % (m.get("want"), m.get("got"), m.get("text", m.get("input", ""))[:200], json.dumps(m.get("cfg")), (m.get("detail") or "")[:300]))
-            if len(new) > 20:
-                log("  ... and %d more distinct mismatches" % (len(new) - 20))
+            if len(new) > cap:
+                log("  ... and %d more distinct mismatches" % (len(new) - cap))
             rc = 1
         log("[%s] tier=%s seed=%d states=%d transitions=%d traces=%d evaluations=%d nontrivial=%d violations=%d wall=%.1fs" % (
             self.prop, self.tier, self.seed, self.states, self.transitions, self.traces, self.evaluations,
